@@ -536,6 +536,11 @@ def gen(rng, tier):
         if r < 0.4:
             m = rng.randint(1, 8)
             probs = [] if rng.random() < 0.3 else [qw(p) for p in rand_probs(rng, m)]
+            if len(probs) >= 2 and rng.random() < 0.35:
+                # zero entries: a weight vector with a zero is still the given vector (never "nothing given")
+                ps = rand_probs(rng, m - 1)
+                z = rng.randrange(m)
+                probs = [qw(p) for p in ps[:z]] + [[0, 1]] + [qw(p) for p in ps[z:]]
             idx = [rng.randrange(m + 1) for _ in range(rng.randint(1, 10))]
             cases.append({"kind": "values", "data": [0, m, probs, idx, rng.randint(0, 1)]})
         elif r < 0.8:
